@@ -9,9 +9,13 @@
                                    commit, apply_transition, merge_transitions}
    State is built `with_bundle_update` (transition_state = Some) or without (None), with
    `use_preloaded_bundle = false` and no BAL (both unused by grevm).
-   revm-database 15 has no `State::increment_balances` / `drain_balances` any more; the reference is
-   the loop older revm had and grevm copied: `load_cache_account(a)?.increment_balance(b)` for each
-   non-zero amount, then `apply_transition` (parallel_state.rs:510-525, 746-764). *)
+   `State::increment_balances` / `drain_balances` are the default methods of `DatabaseCommitExt`
+   (revm-database-interface 12.1.1, lib.rs:287-345; `State` has no inherent ones any more): every
+   listed account is read through `basic` (which caches it) and turned into a touched journal
+   account with the new balance; the collected accounts are then committed one after the other
+   (`commit_iter`).  Consequences the old per-account loop did not have: a zero amount touches the
+   account, an account left empty is cleared, and a repeated address is computed from the value
+   before the call. *)
 From Grevm Require Import Base.Util Cache.Status.
 Open Scope N_scope.
 
@@ -66,15 +70,6 @@ Definition r_info_change (a : racct) (f : info -> info) : racct * trans :=
   let i' := f i in
   let st' := on_changed st (had_no_nonce_and_code prev) in
   ((Some (i', m), st'), mkTrans (Some i') st' prev st no_slots false).
-
-(* CA:208-217 (the zero case is filtered by the caller as well) *)
-Definition r_increment (a : racct) (inc : N) : racct * trans :=
-  r_info_change a (fun i => set_balance i (sat_add (balance i) inc)).
-
-(* CA:250-256: None = `try_into::<u128>().unwrap()` panics *)
-Definition r_drain (a : racct) : option (N * (racct * trans)) :=
-  let bal := match fst a with Some (i, _) => balance i | None => balance default_info end in
-  if bal <=? U128_MAX then Some (bal, r_info_change a (fun i => set_balance i 0)) else None.
 
 (* CA:261-294 *)
 Definition r_change (a : racct) (new : info) (storage : list (key * (word * word))) : racct * trans :=
@@ -144,30 +139,43 @@ Definition r_with_ts (r : rstate) (ts : option tstate) : rstate :=
 Definition r_put (r : rstate) (a : addr) (acc : racct) : rstate :=
   mkR (fset (r_accounts r) a acc) (r_contracts r) (r_ts r).
 
-Fixpoint r_increments (d : db) (r : rstate) (bs : list (addr * N)) : rstate * list (addr * trans) :=
+(* ST:302-322 without BAL *)
+Definition r_basic (d : db) (r : rstate) (a : addr) : rstate * option info :=
+  let '(r1, acc) := r_load d r a in (r1, ra_info acc).
+
+(* first pass of increment_balances: `self.basic(address)?` for every listed address, in order *)
+Fixpoint r_touch_all (d : db) (r : rstate) (bs : list (addr * (info -> info))) : rstate * list (addr * eaccount) :=
   match bs with
   | [] => (r, [])
-  | (a, inc) :: bs' =>
-      if inc =? 0 then r_increments d r bs' else
-      let '(r1, acc) := r_load d r a in
-      let '(acc', t) := r_increment acc inc in
-      let '(r2, ts) := r_increments d (r_put r1 a acc') bs' in
-      (r2, (a, t) :: ts)
+  | (a, f) :: bs' =>
+      let '(r1, oi) := r_basic d r a in
+      let '(r2, es) := r_touch_all d r1 bs' in
+      (r2, (a, touched_account oi f) :: es)
   end.
 
-Fixpoint r_drains (d : db) (r : rstate) (ads : list addr) : option (rstate * list N * list (addr * trans)) :=
+Definition r_increments (d : db) (r : rstate) (bs : list (addr * N)) : rstate * list (addr * trans) :=
+  let '(r1, es) := r_touch_all d r (map (fun b => (fst b, incr_fun (snd b))) bs) in
+  r_apply_evm_state r1 es.
+
+(* first pass of drain_balances; None = `balance.try_into::<u128>().unwrap()` panics *)
+Fixpoint r_drain_all (d : db) (r : rstate) (ads : list addr) : option (rstate * list N * list (addr * eaccount)) :=
   match ads with
   | [] => Some (r, [], [])
   | a :: ads' =>
-      let '(r1, acc) := r_load d r a in
-      match r_drain acc with
-      | None => None
-      | Some (bal, (acc', t)) =>
-          match r_drains d (r_put r1 a acc') ads' with
-          | None => None
-          | Some (r2, bals, ts) => Some (r2, bal :: bals, (a, t) :: ts)
-          end
-      end
+      let '(r1, oi) := r_basic d r a in
+      let bal := balance (match oi with Some i => i | None => default_info end) in
+      if bal <=? U128_MAX then
+        match r_drain_all d r1 ads' with
+        | None => None
+        | Some (r2, bals, es) => Some (r2, bal :: bals, (a, touched_account oi drain_fun) :: es)
+        end
+      else None
+  end.
+
+Definition r_drains (d : db) (r : rstate) (ads : list addr) : option (rstate * list N * list (addr * trans)) :=
+  match r_drain_all d r ads with
+  | None => None
+  | Some (r1, bals, es) => let '(r2, ts) := r_apply_evm_state r1 es in Some (r2, bals, ts)
   end.
 
 (* ST:263-296: `Database::storage` - the account is loaded (and cached) first *)
@@ -183,10 +191,6 @@ Definition r_storage (d : db) (r : rstate) (a : addr) (k : key) : rstate * word 
           (r_put r1 a (Some (i, fset m k v), snd acc), v)
       end
   end.
-
-(* ST:302-322 without BAL *)
-Definition r_basic (d : db) (r : rstate) (a : addr) : rstate * option info :=
-  let '(r1, acc) := r_load d r a in (r1, ra_info acc).
 
 (* ST:324-346 *)
 Definition r_code (d : db) (r : rstate) (h : hash) : rstate * codeid :=
